@@ -122,8 +122,13 @@ static void c12_workload(uint64_t seed, int k, int rounds, Result& r, Stack* giv
     } owner(given);
     Stack& stack = *owner.p;
     check_active(r, &stack);
+    // a per-stack setting: what one thread asks of ITS stack must not change what another thread's stack answers
+    const int want_threads = (k % 2) ? 1 : 3;
+    r.push((double)stack.set_max_jacobian_threads(want_threads));
     for (int round = 0; round < rounds; ++round) {
       int n = 2 + g.below(5);
+      if (g.below(4) == 0) stack.set_max_jacobian_threads(want_threads);
+      r.push((double)stack.max_jacobian_threads());
       // ---- scalars: reverse, forward, Jacobian both ways
       {
         std::vector<adouble> x(n);
